@@ -44,6 +44,7 @@ class P(FlowFidelity):
                     w = (fake + w)[:len(w)] if rng.random() < 0.5 else (w[:len(w) - len(fake)] + fake)[-len(w):]
                 body += w
             dsets.append(g.enc_set(t.tid, body))
+        self.last_tsets, self.last_tpls = tsets, tpls
         return addr, m1, dsets, tm
 
     def undecodable(self, g, rng, kind, tm, tpls_known):
@@ -78,6 +79,47 @@ class P(FlowFidelity):
                         msg = g.enc_msg(dsets[:pos] + [s] + dsets[pos:], seq=7)
                         line = pre + hx(msg)
                         self.meta[line] = (bid, "insert", "%s@%d" % (kind, pos)); out.append(line)
+                # the templates announced in the SAME message as the data: a set for an id that is announced only later in the
+                # message is 'unknown' where it stands, is skipped, and changes nothing about the sets after the announcement
+                bid2 = 1000000 + bid
+                addr2 = rand_addr(rng)
+                pre2 = "%s %s %s %s " % (self.cmd, hx(addr2), hx(g.enc_msg([])), hx(addr2))
+                tsets = self.last_tsets
+                line = pre2 + hx(g.enc_msg(tsets + dsets, seq=7))
+                self.meta[line] = (bid2, "full", None); out.append(line)
+                for (t, o) in self.last_tpls:
+                    early = g.enc_set(t.tid, bytes(rng.randrange(256) for _ in range(rng.choice([8, 12, 24]))))
+                    for pos in range(len(tsets)):
+                        # (not after its own announcement: there it would be a decodable or malformed data set, not an unknown one)
+                        if pos > [k for k, (t2, _) in enumerate(self.last_tpls) if t2.tid == t.tid][0]:
+                            continue
+                        msg = g.enc_msg(tsets[:pos] + [early] + tsets[pos:] + dsets, seq=7)
+                        line = pre2 + hx(msg)
+                        self.meta[line] = (bid2, "insert", "unknown id %d (announced later in the message)@%d" % (t.tid, pos)); out.append(line)
+                # ... and with that announcement as the ONLY template set of the message (nothing else that could reset per-message state)
+                for i3, (t, o) in enumerate(self.last_tpls):
+                    bid3 = 2000000 + bid * 10 + i3
+                    addr3 = rand_addr(rng)
+                    pre3 = "%s %s %s %s " % (self.cmd, hx(addr3), hx(g.enc_msg([])), hx(addr3))
+                    ts = g.enc_set(g.tpl_set_id(o), g.enc_tpl(t, o))
+                    ds = [g.enc_set(t.tid, b"".join(g.rand_record(t)[0] for _ in range(2))) for _ in range(2)]
+                    line = pre3 + hx(g.enc_msg([ts] + ds, seq=7))
+                    self.meta[line] = (bid3, "full", None); out.append(line)
+                    early = g.enc_set(t.tid, bytes(rng.randrange(256) for _ in range(12)))
+                    for sets_ in ([early, ts] + ds, [early, early, ts] + ds):
+                        line = pre3 + hx(g.enc_msg(sets_, seq=7))
+                        self.meta[line] = (bid3, "insert", "unknown id %d, announced by the next set" % t.tid); out.append(line)
+                # SEVERAL undecodable sets (2, 3, 7, 12 of them, mixed kinds) in a row, in front, in the middle and at the end
+                for n_bad in (2, 3, 7, 12):
+                    bads = [self.undecodable(g, rng, rng.choice(["reserved", "unknown", "unknown", "missing-element"]), tm, known_ids) for _ in range(n_bad)]
+                    if n_bad == 7:
+                        bads = [self.undecodable(g, rng, "unknown", tm, known_ids) for _ in range(n_bad)]
+                    pos = rng.randrange(len(dsets) + 1)
+                    for sets_ in (bads + dsets, dsets[:pos] + bads + dsets[pos:], [x for d_ in dsets for x in (bads[:n_bad // 2] + [d_])] + bads[n_bad // 2:]):
+                        msg = g.enc_msg(sets_, seq=7)
+                        if len(msg) < 60000:
+                            line = pre + hx(msg)
+                            self.meta[line] = (bid, "insert", "%d undecodable sets" % n_bad); out.append(line)
                 # a message carrying an unknown-template set whose BODY is a complete, decodable set of an installed
                 # template, truncated at every offset (a swallowed skip error would re-parse that body as sets)
                 t2 = None
